@@ -38,9 +38,31 @@ def body_of(src, name):
     return nonempty(mc.parse_function_body(mc.drop_trace(body), ())[1])
 
 
-def lower(src, name, depth=0):
+def lower_stmts(src, name, stmts, depth):
     out = []
-    for st in body_of(src, name):
+    i = 0
+    while i < len(stmts):
+        st = stmts[i]
+        # positive form of the guard:  if (compilation_done) { BODY; return; } abort();
+        if (st[0] == 'if' and not st[1] and st[2] == ('id', 'compilation_done') and st[4] is None and i + 1 < len(stmts)
+                and stmts[i + 1] == ('expr', ('call', ('id', 'abort'), [])) and i + 2 == len(stmts)):
+            inner = nonempty(st[3][1])
+            if inner and inner[-1] == ('return', None):
+                out.append('PRequireCompilationDone')
+                out.extend(lower_stmts(src, name, inner[:-1], depth))
+                return out
+        out.extend(lower_one(src, name, st, depth))
+        i += 1
+    return out
+
+
+def lower(src, name, depth=0):
+    return lower_stmts(src, name, body_of(src, name), depth)
+
+
+def lower_one(src, name, st, depth):
+    out = []
+    for st in [st]:
         if st[0] == 'expr' and st[1][0] == 'call' and st[1][2] == [] and st[1][1][0] == 'id':
             f = st[1][1][1]
             if f in PHASES:
